@@ -600,6 +600,20 @@ func (c05) Gen(tier string, seed int64, emit func([]Ev)) {
 			one("psi.descriptor", append([]byte{byte(tag)}, rndBytes(r, ln)...), r.Intn(256), "descriptor")
 		}
 	}
+	// descriptor objects made from bodies longer than a descriptor_length byte can announce (the constructor takes any slice)
+	for _, tag := range []int{10, 14, 127, 5, 176, 233, 204, 82, 0x7a, 0x6a, 0x81, 0xcc, 0xe9, r.Intn(256), r.Intn(256)} {
+		for _, ln := range []int{255, 256, 257, 300, 1024} {
+			for _, fill := range []int{-1, 0x00, 0xff, 0x02} {
+				b := rndBytes(r, ln)
+				if fill >= 0 {
+					for i := range b {
+						b[i] = byte(fill)
+					}
+				}
+				one("psi.descriptor", append([]byte{byte(tag)}, b...), r.Intn(256), "long-descriptor")
+			}
+		}
+	}
 	// PMT packets for the filter
 	for k := 0; k < rounds*4; k++ {
 		pmt := randPMT(r, 1+r.Intn(5), false)
